@@ -23,6 +23,24 @@ CHECKS = {
         text="The force bias is linear in each Cholesky matrix; every symmetric unit matrix plus a dense triple (g-axis order) on a complete walker product grid decides it for all trial kinds (Green's-function, reverse-mode AD and hand-coded implementations are all compared with the same Fock-space mixed expectation, hence with each other) and both walker containers; the defining logarithmic derivative is checked through the public calc_overlap by central differences.",
         note="same bounds as C02; central-difference comparison at 1e-5 relative.",
         design="2/C03"),
+    "C04": dict(
+        engine="probmc",
+        technique="exact Gaussian field average by enumerating every tensor Gauss-Hermite node through the real propagate() (hooked importance function), dt-ladder ratio test against scipy expm in Fock space; exhaustive field/weight/shift words for the weight-rule branches",
+        text="The auxiliary field is the environment: every node of a tensor Gauss-Hermite rule (16, 12^2, 8^3 nodes) is played as one walker of one real propagate() call, so the field average is computed exactly (probabilistic model checking) instead of sampled; it is compared with exp(-dt(H-E_shift)) on a seven-step dt ladder (ratio per halving >= 3 in the small-dt tail), over propagator x trial kind x n_chol x mean-field rdm1 x walker x shift. The propagated walker, the importance function, theta, the stored overlap and the applied weight are each compared node by node with explicit-matrix references, and every branch of the weight rule (cos<=0, <1e-3, >100, product>100, normal) is forced by an exhaustive field/weight/shift alphabet and counted.",
+        note="norb <= 3 quick / 4 thorough; quadrature/round-off floor 2e-9; reads imp_fun/theta through the guarded add-only hook; restricted propagator compared with the spin-averaged h1 it is documented to use.",
+        design="2/C04"),
+    "C19": dict(
+        engine="gridmc+probmc",
+        technique="exhaustive enumeration of all sample/weight words over small alphabets (algebraic identities) and of every path of i.i.d. / two-state Markov series with exact probabilities (exact expectation of the squared error bar)",
+        text="All weight/sample words of length 4-7 (9 thorough) over 3x2-letter alphabets with every equilibration cut, rescaling and shift decide the algebraic statements (mean, block-size-1 formula with the documented (n_blocks-1) normalisation, plateau rule, invariances, constant data); the statistical statements are decided exactly by enumerating every path of nine i.i.d./Markov ensembles (length <= 14 quick / 20 thorough) with its probability, and for AR(1) by reading the estimator as a quadratic form on a complete polarisation set and contracting with the exact covariance; outlier rejection and jackknife on all words against brute force.",
+        note="block estimates read from the routine's printed table (1e-6 relative), returned values at 1e-9; comparisons within 1e-12 of the 5% plateau threshold skipped and counted.",
+        design="2/C19"),
+    "C20": dict(
+        engine="gridmc",
+        technique="exhaustive enumeration of every lattice kind, side-length tuple and site within bounds; graph invariants and pytree/jit round trips checked on each",
+        text="Chains 2..8 (32 thorough), rectangular and triangular grids (periodic and open) for every ordered side pair in 2..6 (10), cubic grids for every side triple in 2..4 (6): constructibility, site numbering bijection, neighbour symmetry/irreflexivity, adjacency symmetry/regularity/degree bound, equality/hash, flatten-unflatten and a real jit boundary preserving every dataclass field and the adjacency matrix.",
+        note="open triangular lattices with an odd number of rows are counted but not judged (outside the property's parenthesis); default hop_signs/coord_num.",
+        design="2/C20"),
 }
 
 NOT_YET = {}
@@ -74,7 +92,7 @@ def main():
     print("MANIFEST.json: %d checks, %d not claimed" % (len(checks), len(na)))
 
 
-HOOK_COMMITS = []
+HOOK_COMMITS = ["841d02d"]
 
 if __name__ == "__main__":
     main()
